@@ -54,8 +54,10 @@ AWARE = [["dt", 2020, 3, 10, 10, 0, 0, ["utc"]], ["dt", 2020, 3, 10, 12, 30, 0, 
          ["dt", 2020, 3, 29, 1, 30, 0, ["zi", "Europe/Berlin"]],
          ["dt", 2020, 3, 7, 12, 0, 0, ["pytz", "America/New_York"]],
          ["dt", 2020, 3, 8, 12, 0, 0, ["pytz", "America/New_York"]],
-         ["dt", 2020, 10, 25, 2, 30, 0, ["zi", "Europe/Berlin"]],
-         ["dt", 2020, 3, 28, 23, 30, 0, ["du", "Europe/London"]]]
+         ["dt", 2020, 10, 25, 2, 30, 0, ["zi", "Europe/Berlin"]]]
+# no dateutil-zoned values: after a serialise-and-parse step the value carries the provider's zone object, and
+# dateutil and zoneinfo disagree about the UTC offset of wall times inside a DST gap (a false alarm of the
+# harness, found by the benign-mutant self-test, when such a value was in the pool)
 DURS = [["td", 1, 0], ["td", 2, 0], ["td", 7, 0], ["td", 0, 5400], ["td", 0, 0], ["td", -1, 0],
         ["td", -1, 82800], ["td", 1, 3600], ["td", 0, 45]]
 BAD = [["s", "20200310"], ["i", 5], ["f", 1.5], ["list", []]]
